@@ -112,14 +112,18 @@ def gen_case(run_seed: int, index: int, tier: str) -> dict:
     rng = core.rng_for(run_seed)
     soft = rng.random() < 0.35
     spec = C.gen_code_spec(rng, SOFT_FAMILIES if soft else HARD_FAMILIES)
+    huge = index % 3000 == 13  # one very large batch per 3000 runs: more rows than 2**24 / 2**k through one chain call
+    if huge:
+        soft = False
+        spec = rng.choice([{"family": "golay", "extended": False, "information_set": "left"}, {"family": "hamming", "mu": 4, "extended": False, "information_set": "left"}])
     case = {"code": spec, "soft": soft}
     try:
         enc = C.build_encoder(spec)
         kinds = C.decoder_kinds(spec, enc, soft)
         if not kinds:
             raise C.Inadmissible("no decoder of the requested kind for this family")
-        dk = rng.choice(kinds)
-        opts = _dec_opts(rng, dk)
+        dk = "ml" if huge else rng.choice(kinds)
+        opts = {} if huge else _dec_opts(rng, dk)
         C.build_decoder(spec, dk, opts)
     except C.Inadmissible as e:
         case["inadmissible"] = str(e)[:300]
@@ -133,8 +137,10 @@ def gen_case(run_seed: int, index: int, tier: str) -> dict:
     plans = ["ideal", "displace", "displace", "awgn"]
     if not soft and t is not None:
         plans += ["flips"] * 5 + ["bsc"]
-    pk = rng.choice(plans)
-    if pk == "bsc":
+    pk = "flips" if huge else rng.choice(plans)
+    if huge:
+        mod = {"scheme": "bpsk", "complex_output": rng.random() < 0.5}
+    elif pk == "bsc":
         mod = {"scheme": "identity"}
     elif soft:
         mod = C.gen_mod_spec(rng, ["bpsk", "qpsk", "psk", "qam", "qam", "pam", "pi4qpsk"])
@@ -159,10 +165,14 @@ def gen_case(run_seed: int, index: int, tier: str) -> dict:
     if b == 1 and rng.random() < 0.25 and n * 2 <= 64:
         b = rng.choice([x for x in (2, 3, 4) if (x * n) % bps == 0] or [1])
     B = rng.choice([1, 1, 2, 3, 4, 4, 8])
+    if huge:
+        b, B = 1, (1 << 24) // (1 << k) + rng.choice([3, 4, 37])
     case["mod"], case["B"], case["b"] = mod, B, b
+    # bits arrive in whatever dtype the caller keeps them in (a dtype may be rejected, never answered wrongly)
+    case["msg_dtype"] = rng.choice(["float32", "float32", "float32", "float32", "float64", "int64", "int32", "uint8", "int8", "float16"])
     zero_msg = rng.random() < 0.05
     case["messages"] = [[0 if zero_msg else rng.randrange(2) for _ in range(b * k)] for _ in range(B)]
-    if rng.random() < 0.3:  # the same chain object has been used before (other batch sizes, same framing)
+    if rng.random() < 0.3 and not huge:  # the same chain object has been used before (other batch sizes, same framing)
         case["warmup_messages"] = [[[rng.randrange(2) for _ in range(b * k)] for _ in range(rng.choice([1, 1, 2, 3]))] for _ in range(rng.choice([1, 1, 2, 3, 5]))]
         if rng.random() < 0.2:  # one earlier call is malformed (one bit too many) and raises; the chain is used again afterwards
             case["warmup_messages"].insert(rng.randrange(len(case["warmup_messages"]) + 1), [[rng.randrange(2) for _ in range(b * k + 1)]])
@@ -178,17 +188,23 @@ def gen_case(run_seed: int, index: int, tier: str) -> dict:
         same = rng.random() < 0.3
         pats = []
         first = None
-        for _ in range(B):
+        over = []  # rows with a block carrying MORE than t flips: nothing is asked of them, but they must not disturb other rows
+        mixed = B >= 2 and not same and rng.random() < 0.2
+        for r_ in range(B):
             row = []
             for _ in range(b):
                 w = t if rng.random() < 0.6 else rng.randrange(0, t + 1)
+                if mixed and rng.random() < 0.35 and t + 1 <= n:
+                    w = rng.randrange(t + 1, min(n, 2 * t + 3) + 1)
+                    if r_ not in over:
+                        over.append(r_)
                 p = _pattern(rng, n, w, enc, spec)
                 if same and first is not None:
                     p = first
                 first = first or p
                 row.append(p)
             pats.append(row)
-        case["plan"] = {"kind": "flips", "patterns": pats, "t": t}
+        case["plan"] = {"kind": "flips", "patterns": pats, "t": t, "over_budget_rows": over}
     elif pk == "bsc":
         p = rng.choice([0.5 * max(t, 0.3) / n, max(t, 0.5) / n, 0.02])
         case["plan"] = {"kind": "bsc", "p": round(p, 5), "torch_seed": rng.randrange(1 << 31), "t": t}
@@ -265,6 +281,7 @@ def execute(case: dict) -> RunResult:
     msg = torch.tensor(case["messages"], dtype=torch.float32)
     log.add("result", {"out": lr.out if lr.exc is None else f"raised {type(lr.exc).__name__}", "in_budget": lr.in_budget, "fired": lr.fired})
     res.probes[f"plan.{plan['kind']}"] += 1
+    res.probes[f"msg_dtype.{case.get('msg_dtype', 'float32')}"] += 1
     if case.get("warmup_messages"):
         res.faults["history.earlier_calls_on_same_chain"] += len(case["warmup_messages"])
     if case.get("prelude"):
@@ -273,13 +290,15 @@ def execute(case: dict) -> RunResult:
     if plan["kind"] == "ideal" or not damaged:
         res.probes["zero_fault_runs"] += 1
     else:
-        res.nontrivial.append(core.short_hash([spec, dk, case.get("dec_opts"), case["mod"], case["B"], case["b"], plan, case["messages"]]))
+        res.nontrivial.append(core.short_hash([spec, dk, case.get("dec_opts"), case["mod"], case["B"], case["b"], core.short_hash(plan), core.short_hash(case["messages"])]))
     if plan["kind"] == "flips":
         wmax = max((len(p) for row in plan["patterns"] for p in row), default=0)
         if wmax == plan["t"] and wmax > 0:
             res.probes["flips.weight_exactly_t"] += 1
     if not lr.in_budget:
         res.probes[f"over_budget.{plan['kind']}"] += 1  # relaxed: nothing is promised
+    elif lr.exc is not None and case.get("msg_dtype", "float32") != "float32":
+        res.probes[f"rejected_dtype.{case['msg_dtype']}"] += 1  # a dtype may be rejected; it may not be answered wrongly
     elif lr.exc is not None:
         if multi:
             res.probes["layout_rejected.multi_block_rows"] += 1
@@ -292,8 +311,16 @@ def execute(case: dict) -> RunResult:
             violate("not_a_tensor", f"the link returned {type(out).__name__}")
         elif list(out.shape) != list(msg.shape):
             violate("shape", f"returned shape {list(out.shape)}, sent {list(msg.shape)}")
-        elif not bool((out.to(torch.float64) == msg.to(torch.float64)).all()):
-            bad = (out.to(torch.float64) != msg.to(torch.float64)).nonzero()
+        else:
+            neq = out.to(torch.float64) != msg.to(torch.float64)
+            overrows = list(plan.get("over_budget_rows") or []) + list(lr.over_rows)
+            if overrows:
+                neq[overrows] = False  # more than t flips in that row: nothing is promised for it
+                res.faults["flips.over_budget_rows_mixed_in"] += len(overrows)
+            if case["B"] > 64:
+                res.probes["huge_batch_cases"] += 1
+        if isinstance(out, torch.Tensor) and list(out.shape) == list(msg.shape) and bool(neq.any()):
+            bad = neq.nonzero()
             violate("mismatch", f"delivered message differs from the sent one in {bad.shape[0]} of {msg.numel()} bits (first at {bad[0].tolist()})")
     res.digest, res.n_events = log.digest(), len(log)
     return res
